@@ -146,3 +146,8 @@ pub fn read_json_file(path: &str) -> serde_json::Value {
         std::process::exit(2)
     })
 }
+
+/// roots.json of the framework checkout that drives this run (vlib sets VERIF_ROOTS)
+pub fn default_roots() -> String {
+    std::env::var("VERIF_ROOTS").unwrap_or_else(|_| "/verif/spec/roots.json".to_string())
+}
